@@ -189,7 +189,8 @@ func TestVerif_C20_Exhaustive(t *testing.T) {
 		blocks = append(blocks,
 			c20Block{2, c20Full, 3},
 			c20Block{3, c20Full, 2},
-			c20Block{3, []int{0, 1, 2, 4}, 3},
+			c20Block{3, []int{0, 1, 4}, 3}, // appear / disappear / kind change / unchanged across 3 names
+			c20Block{3, []int{0, 1, 2}, 3}, // appear / disappear / spec change / unchanged across 3 names
 		)
 	}
 	desc := make([]string, len(blocks))
@@ -265,7 +266,7 @@ func TestVerif_C20_Sampled(t *testing.T) {
 	r := kit.Start(t, "C20")
 	defer r.Finish()
 	r.Rule("seeded random sequences of 4..8 snapshots over 3 names x (absent | 2 kinds x 3 variants), biased towards unchanged / variant change / kind change of live names; same oracle as the enumerated part")
-	n := r.N(500, 24000)
+	n := r.N(500, 12000)
 	for i := 0; i < n; i++ {
 		if !r.Mine(i) {
 			continue
